@@ -3,6 +3,7 @@
 package blocklist
 
 import (
+	"os"
 	"reflect"
 	"sort"
 )
@@ -106,6 +107,18 @@ func VerifMatchHierarchy(name string, set []string) bool {
 // VerifReadBlocklists is what refreshRemote does after its one second wait
 // (with no remote list configured fetchBlocklist is a no-op): the directory walk.
 func VerifReadBlocklists(b *BlockList) error {
+	b.fetchBlocklist()
+	return b.readBlocklists()
+}
+
+// VerifRefreshBody is refreshRemote without its one second wait: create the
+// directory if it is missing, fetch the configured remote lists, walk the directory.
+func VerifRefreshBody(b *BlockList) error {
+	if _, err := os.Stat(b.cfg.BlockListDir); os.IsNotExist(err) {
+		if err := os.Mkdir(b.cfg.BlockListDir, 0750); err != nil {
+			return err
+		}
+	}
 	b.fetchBlocklist()
 	return b.readBlocklists()
 }
